@@ -1034,6 +1034,40 @@ def rule_random_graph(F, R):
             adj = a[('in', '(vertex_map[v1],vertex_map[v2])', 'edges')] or a[('in', '(vertex_map[v2],vertex_map[v1])', 'edges')]
             return diffv and (diffc or not adj)
         truth_table(R, G + 'augment_colors', 'product-graph edge', sites, spec, t['span']['loc'], t=t, roles=roles)
+        # ... and every unordered pair of product vertices is looked at: for the i-th vertex the partners are the whole list, or its tail
+        # from i or i + 1 on (`vertices.get((i + 1)..)`); a tail that starts later (or a head) leaves pairs out
+        okp = False; whyp = 'the loop over the partners of a product vertex was not found'
+        for (it1, p1, body1) in for_loops(t['body']):
+            vs1 = pat_vars(p1)
+            if not (is_enumerate(it1) and len(vs1) == 2 and roles.get(vs1[1]) == 'v1'): continue
+            for (it2, p2, body2) in for_loops(body1):
+                vs2 = pat_vars(p2)
+                if not (len(vs2) >= 1 and roles.get(vs2[-1]) == 'v2'): continue
+                src = strip(it2)
+                while src['k'] == 'Call' and src['args'] and (callee_name(src) or '').split('::')[-1] in ('iter', 'into_iter', 'deref', 'as_slice'): src = strip(src['args'][0])
+                rv = root_var(src) if src['k'] in ('VarRef', 'UpvarRef') else None
+                tail = None
+                if rv is not None and roles.get(rv) == 'vertices': okp = True; break          # the whole list
+                # a slice bound by `if let Some(rest) = vertices.get(START..)` / `&vertices[START..]`
+                cands_ = []
+                for x in walk(body1):
+                    if x['k'] == 'Call' and callee_name(x) == 'core::slice::<impl [T]>::get' and len(x['args']) == 2: cands_.append(strip(x['args'][1]))
+                    if x['k'] == 'Index': cands_.append(strip(x['index']))
+                    if x['k'] == 'Call' and callee_decl(x) == 'std::ops::Index::index' and len(x['args']) == 2: cands_.append(strip(x['args'][1]))
+                rngs_ = [r_ for r_ in cands_ if r_['k'] == 'Adt' and canon(r_['adt']) in ('std::ops::RangeFrom',)]
+                others_ = [r_ for r_ in cands_ if r_['k'] == 'Adt' and canon(r_['adt']).startswith('std::ops::Range') and canon(r_['adt']) != 'std::ops::RangeFrom']
+                if len(rngs_) == 1 and not others_:
+                    st_ = strip(rngs_[0]['fields'][0]['expr'])
+                    i_ok = st_['k'] in ('VarRef', 'UpvarRef') and st_['var'] == vs1[0]
+                    i1_ok = st_['k'] == 'Binary' and st_['op'] == 'Add' and strip(st_['lhs']).get('var') == vs1[0] and str(strip(st_['rhs']).get('value')) == '1'
+                    okp = i_ok or i1_ok
+                    whyp = 'the partners of the i-th product vertex must be the list from i or i + 1 on; found the tail from %s' % pp(st_)[:40]
+                else:
+                    whyp = 'the partners of a product vertex are taken from %s, which is neither the whole vertex list nor its tail from i (+ 1)' % pp(src)[:50]
+                break
+            break
+        R.count('L:colour-pair-space'); R.obligation(okp, 'L colour pairs')
+        if not okp: R.violation(G + 'augment_colors / L / pairs of product vertices', 'L', whyp, t['span']['loc'])
 
 # ------------------------------------------------------------------------------------------------ emitted templates (token level)
 def tokenize_text(pattern, text):
@@ -1230,8 +1264,39 @@ def rule_graph_writers(F, R):
     mroles = graph_roles(c).get('main', {})
     # walk the If-structure on args.dot / args.undirected and collect (context, template, argument fields, iterated variable)
     found = []
+    import itertools as _it
+    def flag_formula(c_):
+        """condition over the two mode flags as a function of (dot, undirected), None if it mentions anything else"""
+        c_ = strip(c_)
+        if c_['k'] == 'Field' and c_.get('field_name') in ('dot', 'undirected'):
+            i_ = 0 if c_['field_name'] == 'dot' else 1
+            return lambda a: a[i_]
+        if c_['k'] == 'Unary' and c_['op'] == 'Not':
+            f_ = flag_formula(c_['arg'])
+            return None if f_ is None else (lambda a: not f_(a))
+        if c_['k'] == 'LogicalOp':
+            l_, r_ = flag_formula(c_['lhs']), flag_formula(c_['rhs'])
+            if l_ is None or r_ is None: return None
+            return (lambda a: l_(a) and r_(a)) if c_['op'] == 'And' else (lambda a: l_(a) or r_(a))
+        return None
+    def assignments_of(ctx):
+        return [a for a in _it.product((True, False), repeat=2) if all(a[0 if k_ == 'dot' else 1] == v_ for k_, v_ in ctx if k_ in ('dot', 'undirected'))]
+    def ctx_of(ctx, asg):
+        base = [kv for kv in ctx if kv[0] not in ('dot', 'undirected')]
+        cx_ = [(fl_, asg[0][i]) for i, fl_ in enumerate(('dot', 'undirected')) if all(v[i] == asg[0][i] for v in asg)]
+        cx_ = [kv for kv in cx_ if not (kv[0] == 'undirected' and ('dot', False) in cx_)]
+        return base + cx_
     def visit(e, ctx):
         if not isinstance(e, dict): return
+        if e['k'] == 'If' and e['cond']['k'] != 'Let' and strip(e['cond'])['k'] in ('LogicalOp',) and flag_formula(e['cond']) is not None:
+            # a compound test over the mode flags (`if dot && undirected {..} else if dot && !undirected {..} else {..}`): each branch runs
+            # under the flag assignments that reach it
+            f_ = flag_formula(e['cond'])
+            now = assignments_of(ctx)
+            th_ = [a for a in now if f_(a)]; el_ = [a for a in now if not f_(a)]
+            if th_: visit(e['then'], ctx_of(ctx, th_))
+            if el_ and e['else'] is not None: visit(e['else'], ctx_of(ctx, el_))
+            return
         if e['k'] == 'If' and e['cond']['k'] != 'Let':
             cnd = strip(e['cond'])
             neg = False
